@@ -10,6 +10,7 @@ import (
 	"flag"
 	"fmt"
 	"os"
+	"strings"
 	"sync"
 
 	"github.com/golang/protobuf/proto"
@@ -289,6 +290,11 @@ func main() {
 			defer wg.Done()
 			for j := range jobs {
 				ls, err := runCase(cases[j])
+				// an infrastructure failure (the Atomix test runtime occasionally drops an event stream) is retried in a fresh world
+				for attempt := 0; err != nil && strings.Contains(err.Error(), "infra:") && attempt < 2; attempt++ {
+					fmt.Fprintf(os.Stderr, "retry: case %s: %v\n", cases[j].Name, err)
+					ls, err = runCase(cases[j])
+				}
 				results[j] = ls
 				if err != nil {
 					mu.Lock()
